@@ -54,7 +54,10 @@ Next ==
               LET rows == <<a>> \o more
                   eq == \A r \in DOMAIN rows : Len(rows[r]) = n
                   objs == {<<"ragged", dt, rows>>} \cup (IF eq THEN {<<"matrix", dt, rows>>} ELSE {})
-                          \cup (IF dt = "b1" /\ n >= 2 THEN {<<"intervals", <<0, 1>>, <<n, 2>>, n>>, <<"intervals", <<n - 1>>, <<n>>, n>>} ELSE {})
+                          \cup (IF dt = "b1" /\ n >= 2 THEN {<<"intervals", <<0, 1>>, <<n, 2>>, n>>, <<"intervals", <<n - 1>>, <<n>>, n>>,
+                                                                  \* an interval strictly inside its row followed by intervals covering whole rows, and the reverse
+                                                                  <<"intervals", <<1, 0>>, <<n + 1, n + 2>>, n + 2>>, <<"intervals", <<1, 0, 0>>, <<n + 1, n + 2, n + 2>>, n + 2>>,
+                                                                  <<"intervals", <<0, 1>>, <<n + 2, n + 1>>, n + 2>>} ELSE {})
                   nr == Len(rows)
               IN \E o \in objs :
                  \/ \E nm \in {"to_array", "len", "size", "shape", "sum", "any", "all", "max", "mean", "argmax", "colsum", "colmean", "colcounts", "colany", "ravel"} :
